@@ -88,8 +88,38 @@ func (c *ClusterInfo) snapshotQueueResourceUsage() (*queue_info.ClusterUsage, er
 // UpdateQueueHierarchy iterates over a map containing multiple levels of queue hierarchies, and updates queues with
 // child queues where relevant
 func UpdateQueueHierarchy(queues map[common_info.QueueID]*queue_info.QueueInfo) {
+	cleanQueueCycles(queues)
 	updateQueueChildren(queues)
 	cleanQueueOrphans(queues)
+}
+
+// cleanQueueCycles removes every queue whose chain of parents never reaches a root because it
+// runs into a cycle (a queue that is its own ancestor). Walking up such a chain never terminates.
+func cleanQueueCycles(queues map[common_info.QueueID]*queue_info.QueueInfo) {
+	cyclic := map[common_info.QueueID]bool{}
+	for queueId := range queues {
+		path := map[common_info.QueueID]bool{}
+		inCycle := false
+		for current, found := queues[queueId]; found; current, found = queues[current.ParentQueue] {
+			if path[current.UID] || cyclic[current.UID] {
+				inCycle = true
+				break
+			}
+			path[current.UID] = true
+			if current.ParentQueue == "" {
+				break
+			}
+		}
+		if inCycle {
+			for id := range path {
+				cyclic[id] = true
+			}
+		}
+	}
+	for queueId := range cyclic {
+		log.InfraLogger.V(2).Warnf("Found queue %s with a cycle in its chain of parent queues, deleting it", queueId)
+		delete(queues, queueId)
+	}
 }
 
 func updateQueueChildren(queues map[common_info.QueueID]*queue_info.QueueInfo) {
